@@ -404,3 +404,60 @@ M('c13-k2-boundary-precheck-does-not-leave', 'C13', 'R3', SYNC, _EAFP,
 # negative controls (silent): preserving/k2-c13-1; `if 'boundary' in options: boundary = options['boundary'] / else: raise`;
 # `_BOUNDARY = 'boundary'` local + `if not (_BOUNDARY in options and options[_BOUNDARY]): raise`; `n == 0 or 70 < n`;
 # `max_body_part_count > 0 and remaining_parts < 0` in both parsers
+
+# ------------------------- R17 the RFC 5987 extended filename is refused by nothing but the codec (seeded change s11-c13-2)
+_DEC = "                    self._filename = unquote_to_bytes(filename_raw).decode(charset)\n"
+_CRLF_CONST = "_CRLF = b'\\r\\n'\n"
+_CS_SET = "_FILENAME_STAR_CHARSETS = frozenset(['utf-8', 'iso-8859-1'])\n"
+_RX5987 = """_FILENAME_STAR_RFC5987 = re.compile(r"([\\w-]+)'[\\w]*'(.+)")"""
+# the seed: lower-case allow-list compared case-sensitively (`UTF-8''...` -> 400)
+M2('c13-filename-star-charset-allowlist-case-sensitive', 'C13', 'R17', [
+    {'file': SYNC, 'old': _CRLF_CONST, 'new': _CS_SET + _CRLF_CONST},
+    {'file': SYNC, 'old': _DEC, 'new': "                    if charset not in _FILENAME_STAR_CHARSETS:\n"
+                                       "                        raise LookupError('unsupported charset: ' + charset)\n" + _DEC}])
+# the same veto as an equality chain, in front of the try (raises the parse error itself)
+M('c13-filename-star-charset-equality-veto', 'C13', 'R17', SYNC,
+  "                charset, filename_raw = match.groups()\n",
+  "                charset, filename_raw = match.groups()\n"
+  "                if charset != 'utf-8' and charset != 'iso-8859-1':\n"
+  "                    raise MultipartParseError(description='unsupported charset')\n")
+# folded, but the allow-list drops iso-8859-1 (RFC 5987 3.2.1 requires both)
+M('c13-filename-star-charset-utf8-only', 'C13', 'R17', SYNC, _DEC,
+  "                    if charset.lower() != 'utf-8':\n                        raise LookupError(charset)\n" + _DEC)
+# the veto sits in the match test: an upper-case label silently falls back to the plain `filename` parameter
+M2('c13-filename-star-charset-veto-in-match-test', 'C13', 'R17', [
+    {'file': SYNC, 'old': _CRLF_CONST, 'new': _CS_SET + _CRLF_CONST},
+    {'file': SYNC, 'old': "            if match:\n", 'new': "            if match and match.group(1) in _FILENAME_STAR_CHARSETS:\n"}])
+# the veto sits in a statement helper that is handed the label
+M2('c13-filename-star-charset-veto-in-helper', 'C13', 'R17', [
+    {'file': SYNC, 'old': _CRLF_CONST, 'new': _CS_SET + _CRLF_CONST + "\n\ndef _check_charset(label):\n    if label not in _FILENAME_STAR_CHARSETS:\n"
+                                              "        raise LookupError('unsupported charset: ' + label)\n\n"},
+    {'file': SYNC, 'old': _DEC, 'new': "                    _check_charset(charset)\n" + _DEC}])
+# the veto sits in the matcher's pattern (case-sensitive alternation)
+M('c13-filename-star-pattern-lowercase-charsets', 'C13', 'R17', SYNC, _RX5987,
+  """_FILENAME_STAR_RFC5987 = re.compile(r"(utf-8|iso-8859-1)'[\\w]*'(.+)")""")
+# negative controls (silent, tried on scratch copies): `charset.lower() not in _FILENAME_STAR_CHARSETS`; `label = charset.casefold()` +
+# `label not in ...`; `charset = charset.lower()` rebinding before the test; `charset.upper() not in ('UTF-8', 'ISO-8859-1', ...)`; a
+# deny-list `charset.lower() in ('utf-7', 'unicode_escape', 'idna')`; `_check_charset` / `_supported` helpers that fold first;
+# `if match is not None and match.group(1).lower() in ...`; pattern `(utf-8|iso-8859-1)` with re.IGNORECASE; `.decode(charset.lower())`;
+# a bare `codecs.lookup(charset)` statement.  `codecs.lookup(charset).name not in (...)` is exit 2 (not evaluated).
+
+# ---- R1 refactoring + break (preserving/k4-c13-1): the ASGI per-part header loop extracted into a module-level helper (that alone is
+# silent: the helper is read in place of its call) AND the Content-Transfer-Encoding refusal dropped inside the helper
+_ASGI_HEADER_LOOP = "            for line in headers_block.split(_CRLF):\n                name, sep, value = line.partition(b': ')\n                if sep:\n                    name = name.lower()\n\n                    # NOTE(vytas): RFC 7578, section 4.5.\n                    #   This use is deprecated for use in contexts that support\n                    #   binary data such as HTTP. Senders SHOULD NOT generate\n                    #   any parts with a Content-Transfer-Encoding header\n                    #   field.\n                    #\n                    #   Currently, no deployed implementations that send such\n                    #   bodies have been discovered.\n                    if name == b'content-transfer-encoding' and value != b'binary':\n                        raise MultipartParseError(\n                            description=(\n                                'the deprecated Content-Transfer-Encoding '\n                                'header field is unsupported'\n                            )\n                        )\n                    # NOTE(vytas): RFC 7578, section 4.8.\n                    #   Other header fields MUST NOT be included and MUST be\n                    #   ignored.\n                    elif name in _ALLOWED_CONTENT_HEADERS:\n                        headers[name] = value\n"
+M2('c13-k4-asgi-header-helper-drops-cte-check', 'C13', 'R1', [
+    {'file': ASGI, 'old': "class BodyPart(multipart.BodyPart):\n",
+     'new': "def _parse_part_headers(headers_block):\n"
+            "    headers = {}\n"
+            "    for line in headers_block.split(_CRLF):\n"
+            "        name, sep, value = line.partition(b': ')\n"
+            "        if sep:\n"
+            "            name = name.lower()\n"
+            "            if name in _ALLOWED_CONTENT_HEADERS:\n"
+            "                headers[name] = value\n"
+            "    return headers\n\n\n"
+            "class BodyPart(multipart.BodyPart):\n"},
+    {'file': ASGI, 'old': "            headers = {}\n            try:\n                headers_block = await stream.read_until(",
+     'new': "            try:\n                headers_block = await stream.read_until("},
+    {'file': ASGI, 'old': _ASGI_HEADER_LOOP, 'new': "            headers = _parse_part_headers(headers_block)\n"},
+], also=('C06',))
